@@ -11,6 +11,8 @@ Decided from the source, for all operand counts n in N (interval arithmetic):
   K3  every Ok(Some(parsed operation)) exit of the dispatcher is dominated by the
       success edge of the length check applied to the length of the very vector
       that is returned; the check returns Err exactly when the predicate is false;
+  K5  no function between the entry point and the dispatcher discards a Result of
+      the crate's error type (ok(), unwrap_or*, is_err …): the rejection survives;
   K4  the unbracketed operand becomes a one-element vector holding the operand
       itself, only under the unary-acceptance edge; the bracketed form is the
       array's elements in order; both meet at the same length check.
@@ -306,39 +308,41 @@ def run(ctx):
         vec_local = vec_of_len[1] if vec_of_len and vec_of_len[0] in ("phi",) else None
         ctx.need(vec_local is not None, "operand vector is not a two-way join (bracketed / unbracketed forms)")
         defs = b.defs()[vec_local]
-        ctx.need(len(defs) == 2, "operand vector has %d definitions (expected bracketed + unbracketed)" % len(defs))
         ubi = roles["unary"][1]
         usw = [bi for bi in b.reachable() if b.blocks[bi]["term"]["k"] == "SwitchInt" and strip_refs(b.trace(b.blocks[bi]["term"]["discr"]))[0] == "call" and strip_refs(b.trace(b.blocks[bi]["term"]["discr"]))[1].get("key") == roles["unary"][0]]
         ctx.need(len(usw) == 1, "dispatcher does not branch exactly once on unary acceptance")
         t_edge = (usw[0], bool_edge(b, usw[0], True))
         f_tgt = bool_edge(b, usw[0], False)
         seen_forms = set()
-        for d in defs:
+        for n, d in enumerate(defs):
             dbi = d[1]
+            if dbi not in b.reachable():
+                continue
             ex = b._trace_def(d, 0, frozenset())
-            if edge_dominates(b, obi, arr[0], dbi):
-                # bracketed: elements of the array payload, in order
-                x = strip_refs(ex)
-                good = (x[0] == "call" and x[1]["path"] == "std::iter::Iterator::collect" or x[0] == "call" and x[1]["path"].endswith("::collect"))
-                it = strip_refs(x[2][0]) if good else None
-                good = good and it[0] == "call" and it[1]["path"] == "core::slice::<impl [T]>::iter"
-                base = strip_refs(it[2][0]) if good else None
-                good = good and base[0] == "field" and base[1][0] == "downcast" and base[1][2] == "Array" and strip_refs(base[1][1]) == operand
-                ctx.check(bool(good), "K4.bracketed", "bracketed form = the array's elements in order (%s)" % cfg,
-                          "bracketed operands are not collected 1:1 from the array: %s" % show_expr(ex), where=b.where(dbi), fn=b.key, nontrivial=True)
+            x = strip_refs(ex)
+            # form 1: bracketed — collect(iter(array payload of the operand))
+            is_collect = x[0] == "call" and x[1] and x[1]["path"].endswith("::collect")
+            it = strip_refs(x[2][0]) if is_collect else None
+            is_br = bool(is_collect and it[0] == "call" and it[1] and it[1]["path"] == "core::slice::<impl [T]>::iter")
+            base = strip_refs(it[2][0]) if is_br else None
+            is_br = bool(is_br and base[0] == "field" and base[1][0] == "downcast" and base[1][2] == "Array" and strip_refs(base[1][1]) == operand)
+            elems = vec_macro_elems(b, d)
+            if is_br:
+                under = edge_dominates(b, obi, arr[0], dbi)
+                ctx.check(under, "K4.bracketed", "bracketed form = the array's elements in order (%s)" % cfg,
+                          "the array's elements are used as operands on a path where the operand is not known to be an array", where=b.where(dbi), fn=b.key, nontrivial=True)
                 seen_forms.add("bracketed")
-            else:
+            elif elems is not None and len(elems) == 1 and strip_refs(elems[0]) == operand:
                 under = edge_dominates(b, t_edge[0], t_edge[1], dbi)
-                elems = vec_macro_elems(b, d)
-                good = elems is not None and len(elems) == 1 and strip_refs(elems[0]) == operand
                 ctx.check(under, "K4.unary-guard", "unbracketed form only under unary acceptance (%s)" % cfg,
                           "a non-array operand is wrapped without the unary-acceptance test", where=b.where(dbi), fn=b.key, nontrivial=True)
-                ctx.check(bool(good), "K4.wrap", "unbracketed operand x becomes exactly [x] (%s)" % cfg,
-                          "the unbracketed operand is not wrapped as a one-element vector of itself: %s" % (show_expr(ex) if elems is None else [show_expr(x) for x in elems]),
-                          where=b.where(dbi), fn=b.key, nontrivial=True,
-                          sample={"vector": [show_expr(x) for x in elems] if elems else None})
+                ctx.ok("K4.wrap", "unbracketed operand x becomes exactly [x] (%s)" % cfg, nontrivial=True, sample={"vector": [show_expr(e) for e in elems]})
                 seen_forms.add("unbracketed")
-        ctx.check(seen_forms == {"bracketed", "unbracketed"}, "K4.forms", "both operand forms present (%s)" % cfg, "operand forms found: %s" % sorted(seen_forms), where=b.where(obi), fn=b.key)
+            else:
+                what = ("a vector of %d element(s): %s" % (len(elems), [show_expr(e) for e in elems])) if elems is not None else show_expr(ex)
+                ctx.fail("K4.other-form", "operand list #%d formed neither as [x] nor as the array's elements (%s)" % (n, cfg),
+                         "{op: x} must mean exactly {op: [x]}: the operand list is also built as %s" % what, where=b.where(dbi), fn=b.key)
+        ctx.check({"bracketed", "unbracketed"} <= seen_forms, "K4.forms", "both operand forms present (%s)" % cfg, "operand forms found: %s" % sorted(seen_forms), where=b.where(obi), fn=b.key)
         # rejection edge returns Err
         blocks = b.reachable(f_tgt) - b.reachable(t_edge[1])
         with b.restricted(blocks):
@@ -348,8 +352,22 @@ def run(ctx):
             cb2 = facts.body(r[1]["key"])
             rr = cb2.trace(0) if cb2 else ("?",)
             is_err = rr[0] == "agg" and rr[1].get("variant") == "Err"
+        k5_error_discipline(ctx, facts, disp, cfg)
         ctx.check(is_err, "K4.reject", "non-array operand of a non-unary operator is an error (%s)" % cfg,
                   "the rejection edge returns %s" % show_expr(r), where=b.where(usw[0]), fn=b.key)
+
+
+def k5_error_discipline(ctx, facts, disp, cfg):
+    """K5 — the arity error is not swallowed between the dispatcher and the entry point."""
+    from . import errdisc
+    scope = errdisc.callers_closure(facts, [disp.body.key])
+    ctx.count("functions on the parse chain (%s)" % cfg, len(scope))
+    bad = errdisc.dropped_errors(facts, scope)
+    for b, bi, full in bad:
+        ctx.fail("K5.error-dropped", "%s@%s" % (b.key.split("::", 1)[1], full.rsplit("::", 1)[1]),
+                 "the parse chain discards an error of the crate's error type with %s — a rejected operand count would surface as a value" % full, where=b.where(bi), fn=b.key)
+    if not bad:
+        ctx.ok("K5.error-dropped", "no error-dropping call on the parse chain (%s)" % cfg, nontrivial=True, sample={"functions": sorted(scope)[:12]})
 
 
 def vec_macro_elems(body, d):
